@@ -55,7 +55,7 @@ def cases(draw):
     }), min_size=1, max_size=3))
     return {
         "spec": spec,
-        "path": draw(st.sampled_from(build.BUILD_PATHS)),
+        "path": draw(st.sampled_from(build.BUILD_PATHS_LP)),
         "calls": calls,
         "context": draw(st.sampled_from(["outside", "outside", "inside"])),
         "ko_genes": draw(st.lists(st.integers(0, 10), max_size=2)),
